@@ -48,10 +48,30 @@ pub struct Inner {
 	/// triggers: run the closure during the n-th upcoming watch/unwatch call (counted down)
 	pub during: Vec<(usize, Box<dyn FnOnce() + Send>)>,
 	pub max_live: usize,
+	/// which notify error the injected failures carry (see `injected_error`)
+	pub err_kind: u8,
 }
 
 #[derive(Clone, Default)]
 pub struct MockWorld(pub Arc<Mutex<Inner>>);
+
+pub const ERR_KINDS: [&str; 8] = ["generic", "io:ENOENT", "io:ENOSPC", "io:EMFILE", "path-not-found", "watch-not-found", "max-files-watch", "io:EACCES"];
+
+/// The error an injected watch / unwatch failure carries. The production code must treat every kind
+/// the same way at the registration sites (report it for that path, go on with the others).
+pub fn injected_error(kind: u8, what: &str, path: &Path) -> notify::Error {
+	let e = match kind % 8 {
+		0 => notify::Error::generic(what),
+		1 => notify::Error::io(std::io::Error::from_raw_os_error(libc::ENOENT)),
+		2 => notify::Error::io(std::io::Error::from_raw_os_error(libc::ENOSPC)),
+		3 => notify::Error::io(std::io::Error::from_raw_os_error(libc::EMFILE)),
+		4 => notify::Error::path_not_found(),
+		5 => notify::Error::watch_not_found(),
+		6 => notify::Error::new(notify::ErrorKind::MaxFilesWatch),
+		_ => notify::Error::io(std::io::Error::from_raw_os_error(libc::EACCES)),
+	};
+	e.add_path(path.to_path_buf())
+}
 
 struct Mock {
 	id: usize,
@@ -139,7 +159,7 @@ impl notify::Watcher for Mock {
 		if let Some(k) = fail {
 			g.fail_next.remove(k);
 			g.calls.push(Call::Watch { id: self.id, path: path.to_path_buf(), recursive, ok: false });
-			return Err(notify::Error::generic("injected watch failure"));
+			return Err(injected_error(g.err_kind, "injected watch failure", path));
 		}
 		g.calls.push(Call::Watch { id: self.id, path: path.to_path_buf(), recursive, ok: true });
 		let id = self.id;
@@ -154,7 +174,7 @@ impl notify::Watcher for Mock {
 		if let Some(k) = fail {
 			g.fail_next.remove(k);
 			g.calls.push(Call::Unwatch { id: self.id, path: path.to_path_buf(), ok: false, injected: true });
-			return Err(notify::Error::generic("injected unwatch failure"));
+			return Err(injected_error(g.err_kind, "injected unwatch failure", path));
 		}
 		let id = self.id;
 		let known = g.instances[id].registered.remove(path).is_some();
